@@ -42,6 +42,8 @@ type spec struct {
 	Cursor []string // methods translated to the cursor IR of Model/SeqConc.v
 	Loops  []string // page loops (memory.mProtectCrossPage)
 	Shapes []string // step order of memory.WriteTo
+	Orders map[string][]string // function -> callees whose call order is emitted
+	Erro   bool                // emit the Traceable table of package erro
 }
 
 var specs = []spec{
@@ -53,6 +55,18 @@ var specs = []spec{
 	{Out: "Addr", Arch: "amd64", Pkg: "./internal/bytecode", Funcs: []string{"littleEndian.Int16", "littleEndian.Int32", "littleEndian.Int64", "isByteOverflow", "isInt16Overflow", "isInt32Overflow", "DecodeAddress"}, Tables: []string{"opExpand"}},
 	{Out: "Holder", Arch: "amd64", Pkg: "./internal/bytecode/stub", Progs: []string{"acquireFromHolder"}},
 	{Out: "Cursor", Arch: "amd64", Pkg: ".", Cursor: []string{"BaseMatcher.Result"}},
+	{Out: "PatchOrder", Arch: "amd64", Pkg: "./internal/patch", Orders: map[string][]string{
+		"patch.patchValue":           {"SignatureEquals", "unsafePatchValue"},
+		"patch.replaceFunc":          {"unpatchValue", "genJumpData", "checkAndReadOriginBytes", "fixOrigin"},
+		"fixOriginFuncToTrampoline": {"fixRelativeAddr", "WriteTo", "jmpToOriginFunctionValue"},
+		"Guard.Apply":               {"WriteTo"},
+	}},
+	{Out: "MockerOrder", Arch: "amd64", Pkg: ".", Orders: map[string][]string{
+		"baseMocker.applyByFunc":   {"Func", "Apply"},
+		"baseMocker.applyByMethod": {"Method", "Apply"},
+		"baseMocker.applyByName":   {"FuncName", "Apply"},
+	}},
+	{Out: "Erro", Arch: "amd64", Pkg: "./erro", Erro: true},
 	{Out: "Page", Arch: "amd64", Pkg: "./internal/bytecode/memory", Funcs: []string{"PageStart"}, Loops: []string{"mProtectCrossPage"}, Shapes: []string{"WriteTo"}},
 }
 
@@ -109,6 +123,9 @@ func runSpec(repo, out string, sp spec) result {
 	if len(sp.Shapes) > 0 {
 		sb.WriteString("From Goom Require Import Model.WriteTo.\n")
 	}
+	if len(sp.Orders) > 0 || sp.Erro {
+		sb.WriteString("From Coq Require Import String.\nOpen Scope string_scope.\n")
+	}
 	sb.WriteString("Open Scope Z_scope.\n\n")
 	if err != nil || len(pkgs) != 1 {
 		for _, f := range append(append(append([]string{}, sp.Funcs...), sp.Progs...), sp.Cursor...) {
@@ -164,6 +181,31 @@ func runSpec(repo, out string, sp spec) result {
 		}
 		sb.WriteString(s)
 		res.OK = append(res.OK, fn)
+	}
+	{
+		var fns []string
+		for fn := range sp.Orders {
+			fns = append(fns, fn)
+		}
+		sort.Strings(fns)
+		for _, fn := range fns {
+			s, err := trCallOrder(pkg, fn, sp.Orders[fn])
+			if err != nil {
+				res.Failed[fn] = err.Error()
+				continue
+			}
+			sb.WriteString(s)
+			res.OK = append(res.OK, fn)
+		}
+		if sp.Erro {
+			s, err := trErroTypes(pkg)
+			if err != nil {
+				res.Failed["erro"] = err.Error()
+			} else {
+				sb.WriteString(s)
+				res.OK = append(res.OK, "erro")
+			}
+		}
 	}
 	for _, fn := range sp.Loops {
 		s, err := trPageLoop(pkg, fn)
